@@ -174,6 +174,8 @@ def build_scheduler(desc, sort_wrapper=None):
         cls = al.SortedSchedulingAlgo if sd["algo"] == "greedy" else al.RoundRobin
         kw = dict(estimate_max_rate=est is not None, max_rate_estimator=est,
                   uninterrupted_charging=bool(sd.get("unint")))
+        if sd.get("over"):
+            kw["allow_overcharging"] = True  # documented option (announced as not yet supported: it must not change safety)
         if sd["algo"] == "rr":
             kw["continuous_inc"] = sd.get("inc", 0.1)
         sf = sort_fn(sd["sort"])
